@@ -187,7 +187,7 @@ pub fn run(tier: Tier) -> i32 {
     let mut jobs: Vec<(Params, Vec<(String, RawOp)>, String)> = Vec::new();
     for p in &psets {
         let mut al: Vec<(String, RawOp)> = Vec::new();
-        let mut sizes: Vec<Option<u64>> = vec![None];
+        let mut sizes: Vec<Option<u64>> = vec![None, Some(u64::MAX)];
         for (name, prog, _marker) in &progs {
             let e = enc::encode(p.lc, p.lp, p.pb, p.dict as u64, prog);
             if e.bad.is_some() {
@@ -269,6 +269,9 @@ pub fn run(tier: Tier) -> i32 {
             Dist(u32),
             Len(u32),
             RepLen(u32),
+            /// literal context row r (lc = 3: the 3 high bits of the previous byte), used for the first time only after
+            /// `switches` alternations between two other rows
+            LitRow(u8, u32),
         }
         let mut vars: Vec<Var> = Vec::new();
         for d in 1..=130u32 {
@@ -283,6 +286,11 @@ pub fn run(tier: Tier) -> i32 {
         for &l in &lens {
             vars.push(Var::Len(l));
             vars.push(Var::RepLen(l));
+        }
+        for r in 0..8u8 {
+            for switches in [3u32, 70, 200] {
+                vars.push(Var::LitRow(r, switches));
+            }
         }
         let prefix: Vec<Sym> = (0..4200u32).map(|i| if i < 300 { Sym::L(((i * 37 + i / 5 + 1) & 0xFF) as u8) } else { Sym::M(1 + (i * 7) % 290, 2 + (i % 5)) }).collect::<Vec<_>>();
         // (300 varied literals, then short copies until at least 4200 bytes exist, so that every distance used is valid)
@@ -302,6 +310,8 @@ pub fn run(tier: Tier) -> i32 {
             Var::Dist(d) => vec![Sym::M(d, 2), Sym::L(0x55)],
             Var::Len(l) => vec![Sym::M(3, l), Sym::L(0x56)],
             Var::RepLen(l) => vec![Sym::R(0, l), Sym::L(0x57)],
+            // previous byte in row r, then a literal whose bits all go one way (0xFF)
+            Var::LitRow(r, _) => vec![Sym::L((r << 5) | 0x1F), Sym::L(0xFF)],
         };
         let siblings = |v: Var| -> Vec<Var> {
             let mut o = Vec::new();
@@ -312,6 +322,13 @@ pub fn run(tier: Tier) -> i32 {
                         if x >= 1 && x <= 4200 {
                             o.push(Var::Dist(x));
                         }
+                    }
+                }
+                Var::LitRow(r, sw) => {
+                    // the same row with literals whose bits go the other way
+                    for x in [0x00u8, 0x55, 0xAA, 0x0F] {
+                        let _ = x;
+                        o.push(Var::LitRow(r, sw));
                     }
                 }
                 Var::Len(l) | Var::RepLen(l) => {
@@ -331,19 +348,41 @@ pub fn run(tier: Tier) -> i32 {
         let p = Params { lzma2: false, lc: 3, lp: 0, pb: 2, dict: 8192, size: None };
         par_for(vars.len() as u64, |i| {
             let v = vars[i as usize];
-            let mut train = pre.clone();
-            train.push(Sym::M(3, 2)); // rep0 = 3 for the rep-length variables
-            for _ in 0..40 {
-                train.extend(sym_of(v));
-            }
-            train.push(Sym::E);
-            let mut probe = pre.clone();
-            probe.push(Sym::M(3, 2));
-            for sb in siblings(v) {
-                probe.extend(sym_of(sb));
-            }
-            probe.extend(sym_of(v));
-            probe.push(Sym::E);
+            let (train, probe) = if let Var::LitRow(r, sw) = v {
+                // literal-only streams: `sw` alternations between two other rows first, then 40 uses of row r
+                let (a, b) = if r >= 2 { (0x00u8, 0x20u8) } else { (0xC0u8, 0xE0u8) };
+                let mut train: Vec<Sym> = Vec::new();
+                for _ in 0..sw {
+                    train.push(Sym::L(a));
+                    train.push(Sym::L(b));
+                }
+                for _ in 0..40 {
+                    train.extend(sym_of(v));
+                }
+                train.push(Sym::E);
+                let mut probe: Vec<Sym> = vec![Sym::L(a), Sym::L(b)];
+                for x in [0x00u8, 0x55, 0xAA, 0x0F, 0x80, 0x01] {
+                    probe.push(Sym::L((r << 5) | 0x1F));
+                    probe.push(Sym::L(x));
+                }
+                probe.push(Sym::E);
+                (train, probe)
+            } else {
+                let mut train = pre.clone();
+                train.push(Sym::M(3, 2)); // rep0 = 3 for the rep-length variables
+                for _ in 0..40 {
+                    train.extend(sym_of(v));
+                }
+                train.push(Sym::E);
+                let mut probe = pre.clone();
+                probe.push(Sym::M(3, 2));
+                for sb in siblings(v) {
+                    probe.extend(sym_of(sb));
+                }
+                probe.extend(sym_of(v));
+                probe.push(Sym::E);
+                (train, probe)
+            };
             let et = enc::encode(3, 0, 2, 8192, &train);
             let ep = enc::encode(3, 0, 2, 8192, &probe);
             if et.bad.is_some() || ep.bad.is_some() {
@@ -361,6 +400,7 @@ pub fn run(tier: Tier) -> i32 {
                     Var::Dist(d) => format!("distance {}", d),
                     Var::Len(l) => format!("match length {}", l),
                     Var::RepLen(l) => format!("rep-match length {}", l),
+                    Var::LitRow(r, sw) => format!("literal context row {} (first used after {} alternations between two other rows)", r, sw),
                 };
                 ctx.violation(&case, &format!("raw::LzmaDecoder: 40 symbols with {} (one tree path trained to the rail), reset(None), then a stream using the sibling paths: behaves like a new decoder (Ok, {} bytes, {} input bytes)", what, ep.expect.len(), ep.payload.len()), &o, None);
             }
@@ -376,15 +416,19 @@ pub fn run(tier: Tier) -> i32 {
         let hi2: Vec<Sym> = (0..30u32).map(|i| Sym::L(0xE1 + ((i * 11) % 30) as u8)).chain([Sym::M(7, 9), Sym::L(0xF0), Sym::S]).collect();
         let lo: Vec<Sym> = (0..12u32).map(|i| Sym::L(((i * 5) % 32) as u8)).collect();
         let counts: Vec<usize> = tier.pick(vec![255, 256, 257, 512, 65536], vec![2, 3, 127, 128, 255, 256, 257, 511, 512, 513, 1024, 65535, 65536, 65537]);
-        let mut items: Vec<(bool, usize)> = Vec::new();
+        // (kind 0: LZMA lc=3; 1: LZMA2; 2: LZMA with lc=5 (more than 16 literal contexts: settings LZMA2 cannot have))
+        let mut items: Vec<(u8, usize)> = Vec::new();
         for &c in &counts {
-            items.push((false, c));
+            items.push((0, c));
+            items.push((2, c));
             if c <= 1024 {
-                items.push((true, c));
+                items.push((1, c));
             }
         }
         par_for(items.len() as u64, |i| {
-            let (lzma2, c) = items[i as usize];
+            let (kind, c) = items[i as usize];
+            let lzma2 = kind == 1;
+            let lc = if kind == 2 { 5 } else { 3 };
             let (a, b, a2, p) = if lzma2 {
                 let mk = |prog: &Vec<Sym>| lzma2::write(&[Chunk::C { class: 3, props: (3, 0, 2), prog: prog.clone() }]).bytes;
                 (mk(&hi), mk(&lo), mk(&hi2), Params { lzma2: true, lc: 0, lp: 0, pb: 0, dict: 0, size: None })
@@ -392,9 +436,9 @@ pub fn run(tier: Tier) -> i32 {
                 let mk = |prog: &Vec<Sym>| {
                     let mut q = prog.clone();
                     q.push(Sym::E);
-                    enc::encode(3, 0, 2, 4096, &q).payload
+                    enc::encode(lc, 0, 2, 4096, &q).payload
                 };
-                (mk(&hi), mk(&lo), mk(&hi2), Params { lzma2: false, lc: 3, lp: 0, pb: 2, dict: 4096, size: None })
+                (mk(&hi), mk(&lo), mk(&hi2), Params { lzma2: false, lc, lp: 0, pb: 2, dict: 4096, size: None })
             };
             let mut ops = vec![RawOp::Dec(Hex(a))];
             for _ in 1..c {
